@@ -9,6 +9,10 @@ explicit configuration data by the Lean driver only):
          | err LexicalError <line> <col>
   tokv (same request)     -> ok <name>:<value>;...          diagnostic only (names/values are not C04)
   got  <s|l> <text> sl sc el ec   -> ok <text> | err AssertionError       (get_orig_text of any span)
+  plex cfg=<i> g=<j> smart=<0|1> <spanKinds> <synonyms> <keywords> <endName> <s|l|t> <text> <re-table>
+        -> err LexicalError <l> <c> | ok      what `LLParser.parse(text)` does about the characters: a LexicalError
+           (wherever the unmatched character is, whatever the grammar says about the tokens before it) or anything
+           else (a tree, a ParsingError: "ok")
   gseq <text>|<text>|… <ti.sl.sc.el.ec;…>  -> ok <text>;…   a SEQUENCE of get_orig_text calls on str texts of equal
         length; the adapter builds every text afresh inside the call ("\n".join(lines)) and releases it at once, so
         that consecutive calls see different str objects at (very likely) the same address; the model has no memory
@@ -41,8 +45,8 @@ THEOREMS = [
     "C04.tok_provenance", "C04.orig_text_exact", "C04.node_span", "C04.lex_error_line", "C04.tok_cover",
     "C04.tok_cover_unique", "C04.end_token", "C04.node_span_unique", "C04.node_orig_text",
     "C04.parse_is_ll_run", "C04.parse_node_span", "C04.parse_node_orig_text", "C04.parse_error_pos",
-    "C04.lex_error_first", "C04.lex_error_complete", "C04.lex_error_unique", "C04.no_out_of_fuel",
-    "C04.ex_reIn", "C04.ex_tokens",
+    "C04.lex_error_first", "C04.lex_error_complete", "C04.lex_error_unique", "C04.unmatched_char_raises",
+    "C04.parse_lexical_first", "C04.no_out_of_fuel", "C04.ex_reIn", "C04.ex_tokens",
 ]
 RULE = ("distinct by protocol text; non-trivial = the text has at least two tokens besides $END$, or a lexical "
         "error, or more than one line")
@@ -134,6 +138,28 @@ CONFIGS = [
          lexW=["ab", "cd", "a"], lexN=["12", "7"], lexS=[";"], fill=[],
          extra=["#inc", "lab:", "(a1)", "(12)", "f(x)", "n:", ":", "(", ")", "-5", "a-5", "- 5", "ab;", "x(1);"],
          bad=["?", "#", "ab12", "x#y", "1a2"], alpha="a1 ;:()#-\n"),
+    # tokenizer string and span matchers written in verbose style (what re.VERBOSE accepts: blanks, comments, several
+    # lines inside the pattern strings) - both are compiled with re.VERBOSE
+    dict(name="verbose-style",
+         pat=r"""
+            (?P<SPACE> \s+ )            # blanks
+            | (?P<COMMENT_ML> / \* )    # opener of a comment   (closer: see span_matchers)
+            | (?P<TEXT_OPEN> \[ \[ )    # opener of a text block
+            | (?P<WORD> [a-z]+ ) | (?P<NUM> [0-9]+ )
+            | (?P<SEMI> ; )
+            | (?P<HASH> \# )            # an escaped hash is a token, an unescaped one starts a comment
+            """,
+         spans={"COMMENT_ML": r"""
+                    (?P<END_COMMENT> ( \* [^/] | [^*] )* )   # body: no star followed by a slash
+                    \* /                                     # the closer
+                    """,
+                "TEXT_OPEN": r"""(?P<TEXT_BODY> [^\]]* )   # anything but a bracket
+                                 \] \]"""},
+         syn={"COMMENT_ML": "COMMENT", "TEXT_OPEN": "TEXT"},
+         W="WORD", N="TEXT", S="SEMI",
+         lexW=["ab", "a"], lexN=["[[x]]", "[[ a\nb ]]", "[[]]", "[[ # \n\n]]"], lexS=[";"],
+         fill=["/* x */", "/*x\ny*/", "/* # */", "/**/", "/* a\n b */"], extra=["12", "#", "/*", "*/", "[[", "]]"],
+         bad=["?", "]", "/", "*"], alpha="a1 ;/*[]#\n"),
     dict(name="suite",
          pat=r"""
             (?P<SPACE>\s+)
@@ -426,6 +452,16 @@ def impl(case):
                 sl, sc, el, ec = map(int, f[3:7])
                 e = ll.TElement("X", "v", start_pos=ll.SrcPos("t", sl, sc), end_pos=ll.SrcPos("t", el, ec))
                 out.append("ok " + enc_str(e.get_orig_text(text)))
+            elif f[0] == "plex":
+                ci, gi, smart = (int(x.split("=")[1]) for x in f[1:4])
+                text = _dec_input(f[8], f[9])
+                try:
+                    _parser(ci, gi, smart).parse(text, do_cleanup=False, src_name="t")
+                    out.append("ok")
+                except ll.LexicalError as e:
+                    out.append(_err(e))
+                except ll.ParsingError:
+                    out.append("ok")
             elif f[0] == "gseq":
                 parts = [_dec_input("s", t).split("\n") for t in f[1].split("|")]
                 rs = []
@@ -557,6 +593,9 @@ def make_case(params, meta=None):
     if gs:
         lines.append("gseq %s %s" % ("|".join(enc_str(t) for t in gs["texts"]),
                                      ";".join(".".join(map(str, c)) for c in gs["calls"])))
+    if gi is not None:
+        for smart in (1, 0):
+            lines.append("plex cfg=%d g=%d smart=%d %s %s %s" % (ci, gi, smart, cf, inp, tbl))
     m = dict(meta or {})
     if gi is not None and not any(isinstance(v, tuple) for v in GRAMMARS[gi].values()):
         # the model builds the parser from the productions and parses by itself (LL model of C01 + positions)
@@ -693,6 +732,22 @@ def oracle(case, replies):
         if err is None and [(t.name, t.span) for t in toks] != [(t.name, t.span) for t in toks_l]:
             return "str-vs-lines: the str and the list of its lines give different token spans"
     ref = _ref_first_gap(cfg, _vis_lines(kind, text))
+    if ref[0] == "lex" and p.get("g") is not None:
+        # ... and the same through parse(), whatever the grammar thinks of the tokens in front of the character
+        for smart in (1, 0):
+            try:
+                _parser(p["cfg"], p["g"], smart).parse(text, src_name="t")
+                got = "a tree"
+            except ll.LexicalError as e:
+                got = e
+            except ll.ParsingError as e:
+                got = "ParsingError at %s" % (e.src_pos.coords,)
+            if isinstance(got, str):
+                return ("parse-lex-missed: character %r at line %d is matched by no pattern, parse() gives %s and no "
+                        "LexicalError" % (_vis_lines(kind, text)[ref[1] - 1][ref[2]], ref[1], got))
+            if got.src_pos.line != ref[1]:
+                return "parse-lex-line: unmatched character on line %d, parse() raises LexicalError for line %d" % (
+                    ref[1], got.src_pos.line)
     if ref[0] == "lex":
         if err is None:
             return "lex-missed: character %r at line %d is matched by no pattern, no LexicalError" % (
@@ -920,7 +975,19 @@ def _gen_text(rng, cfg, gi, tier):
         pool = cfg["lexW"] + cfg["lexN"] + cfg["lexS"] + cfg["lexW"] + cfg["lexN"] + cfg["lexS"] + cfg["extra"]
         toks = [rng.choice(pool) for _ in range(rng.randrange(0, 7 if not big else 14))]
         mode = "soup"
-    if rng.random() < 0.12:
+    if gi is not None and rng.random() < 0.08:
+        # a place the grammar rejects AND a character no pattern matches, in both orders, on the same or another line
+        breaker = rng.choice(cfg["lexS"] + cfg["lexW"] + cfg["lexN"])
+        k = rng.randrange(len(toks) + 1)
+        toks[k:k] = [breaker, breaker, rng.choice(cfg["lexS"])]
+        bad = rng.choice(cfg["bad"])
+        if rng.random() < 0.7:
+            toks.append(rng.choice(["\n", "\n\n", " "]) + bad)
+            mode += "+syntax-then-bad"
+        else:
+            toks.insert(0, bad + rng.choice(["\n", " "]))
+            mode += "+bad-then-syntax"
+    elif rng.random() < 0.12:
         toks.insert(rng.randrange(len(toks) + 1), rng.choice(cfg["bad"] + ["\xe9", "\U0001F600"]))
         mode += "+bad"
     parts = [rng.choice(["", "", "", " ", "  ", "\n", "\t", "\n\n "])]
@@ -1149,6 +1216,8 @@ def tags(case, replies):
     for l, rep in zip(case["lines"], replies):
         if l.startswith("got "):
             yield "got:" + rep.split()[0] + ("" if rep.startswith("ok") else ":" + rep.split()[1])
+        if l.startswith("plex "):
+            yield "plex:" + " ".join(rep.split()[:2])
         if l.startswith("gseq "):
             yield "gseq:texts=%d" % (l.split()[1].count("|") + 1)
             yield "gseq:calls=%d" % (l.split()[2].count(";") + 1)
@@ -1178,7 +1247,7 @@ LEVEL_TEXT = (
     "shape (node_span), get_orig_text of nodes, LexicalError at the first and only reachable unmatched character "
     "(line 1-based, column 0-based) and its converse, ParsingError.src_pos = start of a token, totality (fuel) of the "
     "tokenizer model. Model = code is established by a differential run of the compiled model against the real "
-    "tokenizer, get_orig_text and parser (9 configurations incl. several span kinds under one synonym and token patterns with context assertions (^, \\b, look-behind, $), one where BOM / NUL / zero-width characters are blanks and combining marks / astral characters are letters, texts with such characters at the start of the text, of a line, inside tokens, '\\r' and '\\r\\n' line ends; 17 grammars incl. 8 that roll back into empty / all-nullable "
+    "tokenizer, get_orig_text and parser (10 configurations incl. one written in verbose style, several span kinds under one synonym and token patterns with context assertions (^, \\b, look-behind, $), one where BOM / NUL / zero-width characters are blanks and combining marks / astral characters are letters, texts with such characters at the start of the text, of a line, inside tokens, '\\r' and '\\r\\n' line ends; 17 grammars incl. 8 that roll back into empty / all-nullable "
     "alternatives and a ProdSequence, both smart_factorization values, str / list / tuple input); the oracle restates "
     "the property on the real objects. Caveats: for a `str` the token theorems speak about the right-stripped lines "
     "the tokenizer iterates over (trailing blanks of a line are in no token); the orig-text theorems of nodes assume "
@@ -1198,7 +1267,9 @@ LEVEL_NOTE = (
     "body matcher of its opener's own group), tok_orig_text, orig_text_exact, "
     "tok_cover, tok_cover_unique, end_token, node_span, node_span_unique, node_orig_text, parse_is_ll_run (forgetting "
     "positions gives the run of the LL model of C01), parse_node_span, parse_node_orig_text, parse_error_pos, "
-    "lex_error_line, lex_error_first, lex_error_complete, lex_error_unique, no_out_of_fuel, bases_std (generated "
+    "lex_error_line, lex_error_first, lex_error_complete, lex_error_unique, unmatched_char_raises (a reachable "
+    "unmatched character IS the LexicalError), parse_lexical_first (also through parse, for every grammar: the whole "
+    "text is tokenized before parsing), no_out_of_fuel, bases_std (generated "
     "offsets). Hypotheses discharged at run time by the driver on every request: ReIn (every match ends inside its "
     "line: tableOk), parserOk (suffix symbols are not terminals, $END$ is). Rest on the sampled correspondence only: "
     "that the model's control flow is the code's (rstrip/split of str input, synonyms/keywords), the model's own "
